@@ -111,6 +111,11 @@ pub struct Hist {
     pub spawned: usize,
     pub err_overtook_results: bool,
     pub consumer_left_early: bool,
+    /// worker closures that have run to their end (set level)
+    pub works_finished: usize,
+    /// a fill / source read happened although the data sets handed back so far cannot explain it
+    pub runahead_work: Option<String>,
+    pub bytes_bound_checked: u64,
 }
 
 pub type SharedHist = Arc<Mutex<Hist>>;
@@ -196,6 +201,11 @@ impl parallel::Reader for GenReader {
             if ahead > self.queue_len as i64 && h.runahead.is_none() {
                 h.runahead = Some(format!("fill {} started while the consumer had started only {} next() calls (queue length {})", h.fills_started, h.next_started, self.queue_len));
             }
+            // the reader only gets a data set back after the consumer received a result, and a
+            // result only exists after its worker finished: fills <= queue_len + finished works
+            if h.fills_started > self.queue_len + h.works_finished && h.runahead_work.is_none() {
+                h.runahead_work = Some(format!("fill {} started while only {} worker results existed (queue length {}): the reader got a data set back that the consumer should still hold", h.fills_started, h.works_finished, self.queue_len));
+            }
         }
         rt::yield_now();
         let k = self.next;
@@ -229,12 +239,32 @@ pub struct ChunkSource {
     calls: usize,
     fail_at: Option<usize>,
     hist: Option<SharedHist>,
+    /// Some((queue_len, capacity)): every record fits the buffer, so each fill_data call pulls at
+    /// most `capacity` bytes and bytes pulled <= (queue_len + finished works) * capacity
+    bound: Option<(usize, usize)>,
 }
 
 impl ChunkSource {
     pub fn new(data: Arc<Vec<u8>>, script: &[u32], fail_at: Option<usize>, hist: Option<SharedHist>) -> ChunkSource {
-        ChunkSource { data, pos: 0, script: script.to_vec(), i: 0, calls: 0, fail_at, hist }
+        ChunkSource { data, pos: 0, script: script.to_vec(), i: 0, calls: 0, fail_at, hist, bound: None }
     }
+    pub fn with_bound(mut self, queue_len: usize, cap: usize) -> ChunkSource {
+        self.bound = Some((queue_len, cap));
+        self
+    }
+}
+
+/// largest distance between two record starts (records are "@r<i>" / ">r<i>" at line starts)
+pub fn max_record_extent(input: &str) -> usize {
+    let b = input.as_bytes();
+    let mut starts = vec![0usize];
+    for i in 1..b.len().saturating_sub(1) {
+        if b[i - 1] == b'\n' && (b[i] == b'@' || b[i] == b'>') && b[i + 1] == b'r' {
+            starts.push(i);
+        }
+    }
+    starts.push(b.len());
+    starts.windows(2).map(|w| w[1] - w[0]).max().unwrap_or(0)
 }
 
 impl Read for ChunkSource {
@@ -260,6 +290,16 @@ impl Read for ChunkSource {
         let n = want.min(buf.len()).min(self.data.len() - self.pos);
         buf[..n].copy_from_slice(&self.data[self.pos..self.pos + n]);
         self.pos += n;
+        if let (Some((q, cap)), Some(h)) = (self.bound, &self.hist) {
+            if n > 0 {
+                let mut h = h.lock().unwrap();
+                h.bytes_bound_checked += 1;
+                let allowed = (q + h.works_finished) * cap;
+                if self.pos > allowed && h.runahead_work.is_none() {
+                    h.runahead_work = Some(format!("{} bytes had been pulled from the source when only {} record sets had been processed (queue length {}, capacity {}, every record fits): more than queue_len + processed sets were filled", self.pos, h.works_finished, q, cap));
+                }
+            }
+        }
         Ok(n)
     }
 }
@@ -432,6 +472,7 @@ fn body(scn: &ParScn, hist: &SharedHist) {
                     }
                     let o = gen_out(c, &d.payload);
                     note_activity(&h1, "worker (exit)");
+                    h1.lock().unwrap().works_finished += 1;
                     o
                 },
                 |rsets| {
@@ -484,7 +525,9 @@ fn body(scn: &ParScn, hist: &SharedHist) {
                         h.work_events.push((d.tag, c));
                         h.tags.insert(d.tag);
                     }
-                    gen_out(c, &d.payload)
+                    let o = gen_out(c, &d.payload);
+                    h1.lock().unwrap().works_finished += 1;
+                    o
                 },
                 |rsets| {
                     consume_sets(scn, &h2, rsets, |d: &mut GenSet, o| Arrival::Set { tag: d.tag, content: d.content, out: if o == gen_out(d.content.unwrap_or(usize::MAX), &d.payload) { o } else { u64::MAX }, recs: vec![] });
@@ -680,7 +723,10 @@ fn body(scn: &ParScn, hist: &SharedHist) {
         }
         Api::ReusableFastq => {
             use fastq::Record;
-            let src = ChunkSource::new(data, &scn.script, scn.io_fault_at, Some(hist.clone()));
+            let mut src = ChunkSource::new(data, &scn.script, scn.io_fault_at, Some(hist.clone()));
+            if scn.io_fault_at.is_none() && max_record_extent(&scn.input) + 2 <= scn.cap.max(3) {
+                src = src.with_bound(q, scn.cap.max(3));
+            }
             let reader: ReusableReader<fastq::Reader<ChunkSource>, Vec<u64>> = ReusableReader::new(fastq::Reader::with_capacity(src, scn.cap.max(3)));
             let h1 = hist.clone();
             let h2 = hist.clone();
@@ -696,6 +742,7 @@ fn body(scn: &ParScn, hist: &SharedHist) {
                     for rec in &d.0 {
                         d.1.push(rec_hash(rec.head(), rec.seq()));
                     }
+                    h1.lock().unwrap().works_finished += 1;
                     d.0.len() as u64
                 },
                 |rsets| {
@@ -714,7 +761,10 @@ fn body(scn: &ParScn, hist: &SharedHist) {
         }
         Api::ReusableFasta => {
             use fasta::Record;
-            let src = ChunkSource::new(data, &scn.script, scn.io_fault_at, Some(hist.clone()));
+            let mut src = ChunkSource::new(data, &scn.script, scn.io_fault_at, Some(hist.clone()));
+            if scn.io_fault_at.is_none() && max_record_extent(&scn.input) + 2 <= scn.cap.max(3) {
+                src = src.with_bound(q, scn.cap.max(3));
+            }
             let reader: ReusableReader<fasta::Reader<ChunkSource>, Vec<u64>> = ReusableReader::new(fasta::Reader::with_capacity(src, scn.cap.max(3)));
             let h1 = hist.clone();
             let h2 = hist.clone();
@@ -730,6 +780,7 @@ fn body(scn: &ParScn, hist: &SharedHist) {
                     for rec in &d.0 {
                         d.1.push(rec_hash(rec.head(), &rec.owned_seq()));
                     }
+                    h1.lock().unwrap().works_finished += 1;
                     d.0.len() as u64
                 },
                 |rsets| {
@@ -940,7 +991,7 @@ pub fn gen_input(rng: &Rng, fasta: bool, n: usize, invalid_at: Option<usize>) ->
 
 pub fn gen_scn(id: &str, rng: &Rng, thorough: bool) -> ParScn {
     let api = match id {
-        "C16" => *rng.pick(&[0u8, 1, 1, 5, 6]),
+        "C16" => *rng.pick(&[0u8, 1, 1, 5, 6, 6, 7]),
         "C15" => *rng.pick(&[0u8, 1, 1, 2, 3, 4, 5, 6, 7, 1, 4, 5]),
         _ => rng.below(8) as u8,
     };
@@ -986,7 +1037,7 @@ pub fn gen_scn(id: &str, rng: &Rng, thorough: bool) -> ParScn {
             None
         };
         scn.input = gen_input(rng, fasta, n_recs, invalid);
-        scn.cap = if rng.chance(1, 4) { rng.range(40, 200) } else { rng.range(3, 40) };
+        scn.cap = if rng.chance(1, 4) || (id == "C16" && rng.chance(2, 3)) { rng.range(40, 200) } else { rng.range(3, 40) };
         scn.script = match rng.below(4) {
             0 => vec![],
             1 => vec![rng.range(1, 9) as u32],
@@ -1005,6 +1056,19 @@ pub fn gen_scn(id: &str, rng: &Rng, thorough: bool) -> ParScn {
             _ => Consumer::StopAfter(if set_level { rng.small(n_sets + 1) } else { 1 + rng.small(n_recs) }),
         },
     };
+    if matches!(id, "C08" | "C16") && generic && rng.chance(1, 300) {
+        // a long queue (channel capacities, preallocation limits) with an input of comparable length
+        scn.queue_len = rng.range(100, 300);
+        scn.n_sets = rng.range(64, 260);
+        scn.n_threads = rng.range(1, 3) as u32;
+        scn.worker_stall = 0;
+        scn.consumer_stall = 0;
+        scn.consumer = if rng.chance(2, 3) { Consumer::Drain } else { Consumer::StopAfter(rng.small(scn.n_sets)) };
+    }
+    // C07 also holds for the sets a failing reader produced before its error
+    if id == "C07" && generic && rng.chance(1, 3) {
+        scn.err_at = Some(rng.small(n_sets));
+    }
     // faults
     if matches!(id, "C08" | "C15") {
         if generic && rng.chance(1, 2) {
